@@ -88,5 +88,34 @@ func runReplayTemplate(e *Engine, verifDir, base string, o *Obligation, model ma
 	cmd.Env = append(os.Environ(), "GOFLAGS=-mod=mod", "GOPROXY=off", "GOSUMDB=off", "GOTOOLCHAIN=local")
 	out, _ := cmd.CombinedOutput()
 	output = fmt.Sprintf("$ (cd %s && go test -overlay %s -vet=off -count=1 -timeout 60s -run TestVerifReplay ./%s)\n%s", repoAbs, ovFile, dir, out)
-	return strings.Contains(string(out), "VERIF-REPRODUCED"), output, true
+	return reproducedFor(string(out), o.Kind), output, true
+}
+
+// reproducedFor: the replay printed a VERIF-REPRODUCED line for the failing clause. Probe templates tag their lines
+// with the clause label in brackets ("VERIF-REPRODUCED: [dialable] ..."); an untagged line counts for any clause.
+func reproducedFor(out, kind string) bool {
+	label := ""
+	if i := strings.Index(kind, "["); i >= 0 {
+		if j := strings.Index(kind[i:], "]"); j > 0 {
+			label = kind[i+1 : i+j]
+		}
+	}
+	short := label
+	if k := strings.LastIndex(label, "."); k >= 0 {
+		short = label[k+1:]
+	}
+	for _, ln := range strings.Split(out, "\n") {
+		idx := strings.Index(ln, "VERIF-REPRODUCED")
+		if idx < 0 {
+			continue
+		}
+		rest := ln[idx:]
+		if !strings.Contains(rest, "[") || label == "" {
+			return true
+		}
+		if strings.Contains(rest, "["+label+"]") || strings.Contains(rest, "["+short+"]") {
+			return true
+		}
+	}
+	return false
 }
